@@ -454,6 +454,25 @@ def verdict(ctx, mod):
     return code
 
 
+def fingerprints(ctx):
+    """Source fingerprints of the functions the hand-written model follows (translator/fingerprints.py). Drift is not
+    a verdict: it is recorded, and the run uses the thorough budget because the model may no longer be aligned."""
+    sys.path.insert(0, os.path.join(VERIF, "translator"))
+    try:
+        import fingerprints as fp
+        d = fp.drift(ctx.prop)
+    except Exception as e:
+        ctx.notes.append("fingerprints unavailable: %r" % (e,))
+        return
+    if d is None:
+        return
+    ctx.extra_cov["source_fingerprints"] = {"functions": len(fp.MODELLED[ctx.prop]), "drifted": [x[0] for x in d]}
+    if d:
+        ctx.search_mode = True
+        ctx.notes.append("modelled source changed since the model was aligned (%s): correspondence run with the thorough budget"
+                         % ", ".join(x[0] for x in d))
+
+
 def coqchk(ctx):
     """Thorough tier: re-check the property's compiled theorems and everything they depend on with the independent
     checker and record the axioms it reports (none are expected)."""
@@ -486,6 +505,7 @@ def run_check(prop, mod, tier, seed, replay=None):
         ctx.notes.append("extracted model unavailable: correspondence skipped, oracle only")
     if tier == "thorough" and ctx.build.proof_ok:
         coqchk(ctx)
+    fingerprints(ctx)
     mod.run(ctx)
     broke = (not ctx.build.proof_ok) or bool(ctx.disagreements)
     if broke and not ctx.failures and tier != "thorough":
